@@ -327,6 +327,15 @@ func (rw blockReaderWriter) claimAffineBlock(ctx context.Context, aff *model.KVP
 				// process on this host claimed it. Confirm the affinity
 				// and return the existing block.
 				logCtx.Info("Block is already claimed by this host, confirm the affinity")
+				// Write the block back (compare-and-swap) before confirming.  A concurrent release of
+				// this affinity may be about to delete the block; bumping its revision makes that
+				// delete fail rather than leaving us with a confirmed affinity for a block that is
+				// gone (and that another host can then claim as well).
+				obj, err = rw.updateBlock(ctx, obj)
+				if err != nil {
+					logCtx.WithError(err).Info("Block changed while claiming it")
+					return nil, err
+				}
 				if _, err := rw.confirmAffinity(ctx, aff); err != nil {
 					return nil, err
 				}
